@@ -133,8 +133,28 @@ func randLen(rng *rand.Rand, max int) int {
 
 func randText(rng *rand.Rand, n int) []int {
 	t := make([]int, n)
-	for i := range t {
-		t[i] = 32 + rng.Intn(95)
+	switch rng.Intn(8) {
+	case 0: // any byte: NUL, line ends, high bytes
+		for i := range t {
+			t[i] = rng.Intn(256)
+		}
+	case 1: // printable text with NUL / blank / newline at the ends
+		for i := range t {
+			t[i] = 32 + rng.Intn(95)
+		}
+		ends := []int{0, 32, 10, 13, 0, 255}
+		for k := 0; k < 2 && n > 0; k++ {
+			if rng.Intn(2) == 0 {
+				t[n-1-k%n] = ends[rng.Intn(len(ends))]
+			}
+			if rng.Intn(3) == 0 {
+				t[k%n] = ends[rng.Intn(len(ends))]
+			}
+		}
+	default:
+		for i := range t {
+			t[i] = 32 + rng.Intn(95)
+		}
 	}
 	return t
 }
@@ -241,6 +261,11 @@ func writeBytes(pkg tds.Package) (bs []byte, st string) {
 // readPkg lets the library read a package from the bytes behind the token, delivered as one
 // packet of exactly that size.
 func readPkg(pkg tds.Package, body []byte) (st string, consumed int) {
+	return readPkgE(pkg, body, false)
+}
+
+// readPkgE: eom = the packet carries the end-of-message status (the queue knows that nothing follows)
+func readPkgE(pkg tds.Package, body []byte, eom bool) (st string, consumed int) {
 	defer func() {
 		if r := recover(); r != nil {
 			st = "panic"
@@ -250,6 +275,9 @@ func readPkg(pkg tds.Package, body []byte) (st string, consumed int) {
 	if len(body) > 0 {
 		p := &tds.Packet{Data: append([]byte(nil), body...)}
 		p.Header.Length = uint16(8)
+		if eom {
+			p.Header.Status = tds.TDS_BUFSTAT_EOM
+		}
 		q.AddPacket(p)
 	}
 	err := pkg.ReadFrom(q)
@@ -295,6 +323,10 @@ func (r *wireRun) prefixes(kind string, mk func() tds.Package, body []byte, f in
 	firstBad := -1
 	for k := 0; k < len(body); k++ {
 		st, _ := readPkg(mk(), body[:k])
+		if st == "need" && k > 0 {
+			// the same prefix as the last packet of a message: still "not enough bytes"
+			st, _ = readPkgE(mk(), body[:k], true)
+		}
 		counts[st]++
 		if st != "need" && firstBad < 0 {
 			firstBad = k
@@ -351,12 +383,24 @@ func boundaryLens(max int) []int {
 	return out
 }
 
-// genericWith: like generic; field `force` (if any) gets exactly forceLen bytes
+// edgeTexts: string values whose ends a reader might be tempted to tidy up
+var edgeTexts = [][]int{{0}, {'a', 0}, {'a', 'b', 0, 0}, {0, 'a'}, {' '}, {' ', 'a', ' '}, {'a', '\n'}, {'\n'}, {'a', '\r', '\n'}, {255}, {'a', 255}, {'\t'}}
+
+// genericWith: like generic; field `force` (if any) gets exactly forceLen bytes (forceLen < 0: the
+// edge text number -forceLen-1)
 func (r *wireRun) genericWith(k wkind, small bool, doPrefix bool, force string, forceLen int) {
 	r.scn()
 	f := k.random(r.rng, small)
+	var forced []int
+	if forceLen < 0 {
+		forced = edgeTexts[-forceLen-1]
+		forceLen = len(forced)
+	}
 	for try := 0; force != "" && try < 40; try++ {
 		f[force] = randText(r.rng, forceLen)
+		if forced != nil {
+			f[force] = append([]int{}, forced...)
+		}
 		if k.fix != nil {
 			k.fix(r.rng, f) // may blank an optional part: draw the other fields again
 		}
@@ -714,11 +758,18 @@ func (r *wireRun) envchangeWith(doPrefix bool, n int, pattern int) {
 }
 
 func (r *wireRun) loginack(doPrefix bool) {
+	r.loginackWith(doPrefix, nil)
+}
+
+func (r *wireRun) loginackWith(doPrefix bool, forced []int) {
 	r.scn()
 	st := 5 + r.rng.Intn(3)
 	ver := [4]byte{5, 0, 0, 0}
 	pver := [4]byte{byte(r.rng.Intn(256)), byte(r.rng.Intn(256)), byte(r.rng.Intn(256)), byte(r.rng.Intn(256))}
 	name := randText(r.rng, randLen(r.rng, 255))
+	if forced != nil {
+		name = append([]int{}, forced...)
+	}
 	hb := encLoginAck(st, ver, string(toBytes(name)), pver).Bytes
 	f := map[string]interface{}{"status": st, "tdsversion": ints(ver[:]), "progname": name, "progversion": ints(pver[:])}
 	pkg, _ := tds.LookupPackage(tds.TDS_LOGINACK)
@@ -993,6 +1044,65 @@ func (r *wireRun) clientParams() {
 	r.tr.Emit(pev)
 }
 
+// serverFmtParams: parameter values written behind a format the *server* announced (the answer to a
+// prepare): the library parses the PARAMFMT, the client fills data fields for its columns - also
+// with values longer than the announced maximum length - and writes the PARAMS package.  Whatever
+// is written, every length prefix must equal what follows it.
+func (r *wireRun) serverFmtParams() {
+	r.scn()
+	n := 1 + r.rng.Intn(3)
+	var cols []fcol
+	for i := 0; i < n; i++ {
+		dt := []int{0x2F, 0x27, 0x2D, 0x25, 0xE1, 0xAF}[r.rng.Intn(6)] // CHAR VARCHAR BINARY VARBINARY LONGBINARY LONGCHAR
+		cols = append(cols, fcol{Dt: dt, Name: randText(r.rng, r.rng.Intn(6)), Locale: []int{}, MaxLen: 1 + r.rng.Intn(12),
+			Label: []int{}, Catalogue: []int{}, Schema: []int{}, Table: []int{}, TableName: []int{}})
+	}
+	hb := encFcols(tokParamFmt, cols, false, false)
+	fpkg, _ := tds.LookupPackage(tds.TDS_PARAMFMT)
+	if st, _ := readPkg(fpkg, hb[1:]); st != "ok" {
+		return
+	}
+	var datas []tds.FieldData
+	fields := []map[string]interface{}{}
+	for i, ff := range fpkg.(*tds.ParamFmtPackage).Fmts {
+		fd, err := tds.LookupFieldData(ff)
+		if err != nil {
+			return
+		}
+		// value lengths around the announced maximum: shorter, equal, longer
+		l := cols[i].MaxLen + r.rng.Intn(9) - 3
+		if l < 1 {
+			l = 1
+		}
+		v := randBytes(r.rng, l)
+		for j := range v {
+			v[j] = byte('a' + int(v[j])%26)
+		}
+		if cols[i].Dt == 0x2F || cols[i].Dt == 0x27 || cols[i].Dt == 0xAF {
+			fd.SetValue(string(v))
+		} else {
+			fd.SetValue(v)
+		}
+		datas = append(datas, fd)
+		fields = append(fields, map[string]interface{}{"dt": cols[i].Dt, "colstatus": false, "status": 0, "data": ints(v), "txtptr": []int{}, "ts": []int{}})
+	}
+	ppkg := tds.NewParamsPackage(datas...)
+	if err := ppkg.LastPkg(fpkg); err != nil {
+		return
+	}
+	pb, pst := writeBytes(ppkg)
+	pf := map[string]interface{}{"fields": fields}
+	pev := Ev{"ev": "Pkg", "kind": "PARAMS", "f": pf, "w": pst, "wbytes": ints(pb), "h": false, "hbytes": []int{}, "r": "none", "rf": pf, "consumed": 0}
+	if pst == "ok" && len(pb) > 1 {
+		rp, _ := tds.LookupPackage(tds.TDS_PARAMS)
+		if err := rp.(tds.LastPkgAcceptor).LastPkg(fpkg); err == nil {
+			st, consumed := readPkg(rp, pb[1:])
+			pev["r"], pev["consumed"] = st, consumed
+		}
+	}
+	r.tr.Emit(pev)
+}
+
 // loginRecord: the fixed-layout login record for every field length 0..31
 func (r *wireRun) loginRecord(enc bool) {
 	r.scn()
@@ -1109,7 +1219,13 @@ func wireMain(args []string) error {
 						r.genericWith(k, true, false, fd.name, n)
 					}
 				}
+				for e := range edgeTexts { // NUL / blank / line end at the ends of the value
+					r.genericWith(k, true, false, fd.name, -e-1)
+				}
 			}
+		}
+		for e := range edgeTexts {
+			r.loginackWith(false, edgeTexts[e])
 		}
 		// ENVCHANGE: every pattern of empty / non-empty values over 1..3 members
 		for n := 1; n <= 3; n++ {
@@ -1131,6 +1247,7 @@ func wireMain(args []string) error {
 		}
 		for i := 0; i < *count*3; i++ {
 			r.clientParams()
+			r.serverFmtParams()
 		}
 	}
 	if *mut > 0 {
